@@ -88,7 +88,7 @@ fn on_kind<'s, I: Kind<'s>>(acc: &mut Acc, sp: &Spec, g: &G, bufs: &'s [Buf], st
 where
     I::Span: Clone + 's,
 {
-    let p = build::<I, Rich<'s, char, I::Span>>(g, Opts { wrap: true, slice: false, obs: true, track: false });
+    let p = build::<I, Rich<'s, char, I::Span>>(g, Opts { wrap: true, slice: false, obs: true, track: false, clone_iter: false });
     for buf in bufs.iter().step_by(step) {
         model_case::<I, Rich<'s, char, I::Span>>(acc, sp, g, &p, buf, enumerated);
     }
